@@ -20,6 +20,16 @@ def check_lemmas(prop, contracts):
         r = s.check()
         out.append({"id": "lemma.div.%s" % name, "verdict": "proved" if r == z3.unsat else ("refuted" if r == z3.sat else "unknown"),
                     "backend": "z3-nia", "solver_s": round(time.time() - t0, 4)})
+    from .sym import mul_lemmas
+    vs, lems = mul_lemmas(lambda a, b: a * b)
+    for name, (f, _) in lems.items():
+        s = z3.Solver()
+        s.set("timeout", 20000)
+        s.add(z3.Not(f))
+        t0 = time.time()
+        r = s.check()
+        out.append({"id": "lemma.mul.%s" % name, "verdict": "proved" if r == z3.unsat else ("refuted" if r == z3.sat else "unknown"),
+                    "backend": "z3-nia", "solver_s": round(time.time() - t0, 4)})
     for c in contracts:
         for name, thunk in c.lemmas.items():
             t0 = time.time()
